@@ -1,6 +1,20 @@
 """property id -> check function(prop, tier, seed, replay)"""
+import glob
+import importlib
+import os
+
 import fam_lie
 
 CHECKS = {}
 for _p in ("C01", "C02", "C03", "C04", "C05"):
     CHECKS[_p] = fam_lie.check
+
+# families contributed as tools/registry_<family>.txt lines: "<PROP> <module>.<function>"
+for _f in sorted(glob.glob(os.path.join(os.path.dirname(os.path.abspath(__file__)), "registry_*.txt"))):
+    for _ln in open(_f):
+        _ln = _ln.split("#")[0].strip()
+        if not _ln:
+            continue
+        _prop, _target = _ln.split()
+        _mod, _fn = _target.rsplit(".", 1)
+        CHECKS[_prop] = getattr(importlib.import_module(_mod), _fn)
